@@ -11,6 +11,7 @@ MODELS = {
     "lemma-queue": "composition lemma queue-induction (on paper): the empty channel satisfies the acceptance-order invariant and each operation preserves it, so the one-step verdicts extend to histories of any length",
     "contract-ewp": "contract stub for Span::enter_with_parent in the add_event/add_properties harnesses (child = Span::new(parent's issued token, name, None)); the real function is decided separately by sp_enter_with_parents_links and sp_from_span_fields",
     "lemma-stack": "composition lemma stack-top-locality (on paper): every LocalSpanStack operation touches only the top scope, so frames verified at depth <= 2 extend to any depth",
+    "oracle-jaeger": "stubs for JaegerReporter::convert (records the sub-range it was given), JaegerReporter::serialize (buffer of length 60 + sum of symbolic per-span sizes, clamped to 8191) and UdpSocket::send_to (logs length and range); assumption: the real encoder's length is additive in the spans",
     "kani": "Kani 0.68 MIR->goto translation, CBMC 6.11 symbolic execution, CaDiCaL; dev profile (debug assertions and overflow checks on)",
 }
 
@@ -18,7 +19,7 @@ HARNESSES = []
 
 
 def H(pkg, mod, name, props, tier="quick", unwind=None, flags=(), cap_s=900, mem_gb=12, alone=False,
-      sym="", bound="", termination=False, models=("kani",)):
+      sym="", bound="", termination=False, models=("kani",), oracle_stubs=False):
     if pkg in ("harness-crate", "harness-disabled"):
         path = f"{mod}::{name}" if mod else name
     else:
@@ -26,7 +27,8 @@ def H(pkg, mod, name, props, tier="quick", unwind=None, flags=(), cap_s=900, mem
     tiers = tier if isinstance(tier, dict) else {p: tier for p in props}
     HARNESSES.append(dict(pkg=pkg, mod=mod, name=name, path=path, props=tuple(props), tiers=tiers,
                           unwind=unwind, flags=list(flags), cap_s=cap_s, mem_gb=mem_gb, alone=alone,
-                          sym=sym, bound=bound, termination=termination, models=tuple(models)))
+                          sym=sym, bound=bound, termination=termination, models=tuple(models),
+                          oracle_stubs=oracle_stubs))
 
 
 def harnesses_for(prop, tier):
@@ -169,6 +171,41 @@ for n, props, sym, kw in [
     ("fu_enter_on_poll_no_parent", ["C13", "C16"], "none", {}),
 ]:
     H("fastrace", "future", n, [p for p in props if p != "C03"], sym=sym, bound=FUB, models=SPM, **kw)
+
+# ---------------------------------------------------------------- Stream / Sink adapters (C14)
+for n, props, sym, kw in [
+    ("fs_stream_item_poll", ["C14"], "span id, token fields", dict(mem_gb=20, cap_s=1500)),
+    ("fs_stream_end_root", ["C14"], "span id, collect id, token fields", dict(mem_gb=24, cap_s=1800, flags=NOCHK + ["--no-overflow-checks"])),
+    ("fs_sink_send_calls", ["C14"], "span id, which of poll_ready/start_send/poll_flush", dict(mem_gb=24, cap_s=1800)),
+    ("fs_sink_close_root", ["C14"], "span id, close Pending or Ready", dict(mem_gb=24, cap_s=1800, flags=NOCHK + ["--no-overflow-checks"])),
+    ("fs_noop", ["C14", "C16"], "none", {}),
+]:
+    H("fastrace-futures", "", n, props, sym=sym, bound="one adapter, one call, hand-written Stream (<=1 item) / Sink", models=SPM, **kw)
+
+# ---------------------------------------------------------------- #[trace] twins (C15)
+for n, sym, kw in [
+    ("twin_sync_noparent", "a:u8, b:u8 (shapes: early return; `?` + &mut log + name=)", {}),
+    ("twin_generic_method_noparent", "array, index, Option<u8> (shapes: generic method with lifetime + short_name; properties)", {}),
+    ("twin_async_noparent", "a:u8 (shape: async fn awaiting a once-pending future)", dict(tier="thorough", mem_gb=30, cap_s=2400)),
+    ("twin_async_enter_on_poll_noparent", "a:u8 (shape: async fn + enter_on_poll)", {}),
+    ("twin_sync_parent_default_name", "a:u8, b:u8, parent id", dict(tier="thorough", mem_gb=30, cap_s=2400)),
+    ("twin_sync_parent_configured", "Option<u8>, parent id", dict(tier="thorough", mem_gb=30, cap_s=2400)),
+]:
+    H("harness-crate", "twins", n, ["C15"], sym=sym, bound="6-shape corpus of annotated functions with hand-written twins; all argument values", models=SPM, **kw)
+
+# ---------------------------------------------------------------- disabled build (C16)
+for n, sym in [
+    ("disabled_span_api", "context (trace id, span id, sampled)"),
+    ("disabled_local_api", "none"),
+    ("disabled_future_api", "none"),
+]:
+    H("harness-disabled", "disabled", n, ["C16"], sym=sym, bound="every public entry point once, build without the `enable` feature", models=("kani", "ring", "rand"))
+
+# ---------------------------------------------------------------- Jaeger splitter (C20)
+JM = ("kani", "oracle-jaeger")
+for n, tier in [(2, "quick"), (3, "quick"), (4, "thorough")]:
+    H("fastrace-jaeger", "", f"jg_splitter_n{n}", ["C20"], sym=f"per-span encoded sizes w[0..{n}) each in 1..=9000", bound=f"batch of {n} spans, every size distribution",
+      models=JM, termination=True, tier=tier, cap_s=1800, mem_gb=20, oracle_stubs=True)
 
 COLLECTOR_OUT = "everything downstream of Receiver::try_recv (handle_commands, per-trace maps, amend/mount, Reporter::report, report interval, flush())"
 
